@@ -68,31 +68,41 @@ def params(prog, run):
     pre = prog.func(FN)
     est = prog.func(EST)
     f = rel(prog.mods[pre.mod].path)
-    calls = [c for c, r in prog.calls_in(pre) if isinstance(r, FuncInfo) and r.qual == est.qual]
-    if not calls:
-        run.ob("R-param", pre.qual, "SD_est calls", False, "SD_PreGER no longer calls SD_est", witness="missing", file=f)
-    for i, c in enumerate(calls):
-        m, errs = astq.bind_args(est.node, c)
-        for e in errs:
-            run.ob("R-param", pre.qual, f"call#{i} conformance", False, e, witness=e, file=f, node=c)
+    recs = astq.forwarded_args(prog, pre, est.qual)
+    if not recs:
+        run.ob("R-param", pre.qual, "SD_est calls", None, "no call of SD_est found in SD_PreGER or the helpers it calls", witness="missing", file=f)
+    pre_params = set(astq.params_of(pre.node)[0] + astq.params_of(pre.node)[1])
+    for i, rec in enumerate(recs):
+        c = rec["call"]
+        fh = rel(prog.mods[rec["holder"].mod].path)
+        via = " via " + " -> ".join(rec["chain"][1:]) if len(rec["chain"]) > 1 else ""
+        for e in rec["errors"]:
+            run.ob("R-param", pre.qual, f"call#{i} conformance", False, e, witness=e, file=fh, node=c)
         for callee_p, caller_p in (("nxseg", "nxseg"), ("method", "method"), ("pov", "pov")):
-            a = m.get(callee_p)
+            if callee_p in rec["missing"]:
+                run.ob("R-param", pre.qual, f"{caller_p}->SD_est.{callee_p}", False if rec["complete"] else None,
+                       f"SD_est call `{astq.src(c, 70)}`{via} does not receive {caller_p} (the estimator's default is used instead)",
+                       witness="not forwarded", file=fh, node=c, config=f"call#{i}")
+                continue
+            a = rec["args"].get(callee_p)
             if a is None:
-                run.ob("R-param", pre.qual, f"{caller_p}->SD_est.{callee_p}", False,
-                       f"SD_est call `{astq.src(c, 70)}` does not receive {caller_p} (the estimator's default is used instead)",
-                       witness="not forwarded", file=f, node=c, config=f"call#{i}")
-            else:
-                ok = _is_param(pre, a, caller_p)
-                run.ob("R-param", pre.qual, f"{caller_p}->SD_est.{callee_p}", ok,
-                       f"`{astq.src(a)}`" if ok else f"SD_est.{callee_p} receives `{astq.src(a)}`, not the caller's {caller_p}",
-                       witness=astq.src(a, 60), file=f, node=c, config=f"call#{i}")
-        a = m.get("dt")
-        if a is not None:
-            x = astq.expand(pre, a)
+                run.ob("R-param", pre.qual, f"{caller_p}->SD_est.{callee_p}", None, f"argument of `{astq.src(c, 60)}`{via} could not be expressed in SD_PreGER's scope", file=fh, node=c, config=f"call#{i}")
+                continue
+            ok = isinstance(a, ast.Name) and a.id == caller_p
+            if not ok and not (isinstance(a, ast.Constant) or (isinstance(a, ast.Name) and a.id in pre_params)
+                               or (isinstance(a, ast.BinOp) and any(isinstance(n, ast.Name) and n.id == caller_p for n in ast.walk(a)))):
+                ok = None       # neither the parameter nor a recognisably different value
+            run.ob("R-param", pre.qual, f"{caller_p}->SD_est.{callee_p}", ok,
+                   f"`{astq.src(a)}`{via}" if ok else f"SD_est.{callee_p} receives `{astq.src(a)}`{via}, not the caller's {caller_p}",
+                   witness=astq.src(a, 60), file=fh, node=c, config=f"call#{i}")
+        x = rec["args"].get("dt")
+        if x is not None:
             ok = isinstance(x, ast.BinOp) and isinstance(x.op, ast.Div) and isinstance(x.left, ast.Constant) and x.left.value == 1 \
                 and isinstance(x.right, ast.Name) and x.right.id == "fs"
             ok = ok or (isinstance(x, ast.Name) and x.id == "dt")
-            run.ob("R-param", pre.qual, "dt->SD_est.dt", ok, f"dt = `{astq.src(x)}`", witness=astq.src(x, 60), file=f, node=c, config=f"call#{i}")
+            if not ok and not (isinstance(x, (ast.Name, ast.Constant)) or (isinstance(x, ast.BinOp) and any(isinstance(n, ast.Name) and n.id == "fs" for n in ast.walk(x)))):
+                ok = None
+            run.ob("R-param", pre.qual, "dt->SD_est.dt", ok, f"dt = `{astq.src(x)}`{via}", witness=astq.src(x, 60), file=fh, node=c, config=f"call#{i}")
     # inside SD_est: csd keywords
     fe = rel(prog.mods[est.mod].path)
     csds = [c for c, nm in astq.calls_resolved(prog, est, lambda n: n == "scipy.signal.csd")]
